@@ -453,7 +453,8 @@ Preambles == <<
   <<PR(1), PS(1, "READY"), PS(2, "READY"), PP("BIND", <<>>, 0), PD(1, "OK", <<1>>), PS(1, "TF"), PP("BOUND", <<1>>, 0),
     PP("UNBIND", <<1>>, 0), PD(3, "OK", <<>>)>>,                                                 \* 8: ... and the key unbound again while channel 1 is still down
   <<PR(1), PS(1, "READY"), PS(2, "READY"), PP("BIND", <<>>, 0), PD(1, "OK", <<1>>), PS(1, "TF"), PP("BOUND", <<1>>, 1),
-    PA(3), PD(2, "CDE", <<>>)>>                                                                  \* 9: like 7, and the channel that served the keyed call (the stand-in when channel 1 is the home) is being refreshed (uc = 1)
+    PA(3), PD(2, "CDE", <<>>)>>,                                                                 \* 9: like 7, and the channel that served the keyed call (the stand-in when channel 1 is the home) is being refreshed (uc = 1)
+  <<PR(1), PS(1, "READY"), PS(2, "READY"), PS(3, "READY"), PP("BIND", <<>>, 0), PD(1, "OK", <<1>>)>>   \* 10: three READY channels, key 1 bound to one of them
 >>
 PreSeq == IF Pre = 0 THEN <<>> ELSE Preambles[Pre]
 
